@@ -111,13 +111,7 @@ def why(rj):
 # known-findings.json lists it as open for C17, and only with its exact signature: classify() below.  While it is not
 # listed it is reported as a VIOLATION.  DELETE the id here (and KF_C17A in Trace_CacheA.tla, MC_Cache_kf_punchend.cfg)
 # when a fix: commit lands.
-KNOWN_TEXT = {
-    'C17a': 'evict-to-end at an offset past the end of the media file (CachedFile::fallocate(offset, -1) -> FileCacheStore::evict(offset, -1), '
-            'fs/cache/full_file_cache/cache_store.cpp:186-187) calls ftruncate(offset) and so EXTENDS the media file to a page-aligned size larger '
-            'than the source; the next pool instance over that directory takes the media size as the file size (ICachePool::open, '
-            'fs/cache/cache.cpp:95-98; tryget_size only ever grows it): reads then return zero bytes beyond the source\'s end, or clamp the refill '
-            'to the wrong size, get a short source read and fail with -1',
-}
+KNOWN_TEXT = {}      # C17a (F30) repaired by fix: 446b617; MC_Cache_kf_punchend.cfg documents the pre-repair behaviour
 TOLERATED = set()
 
 
@@ -126,8 +120,9 @@ def _tolerated(ctx):
 
 
 def signature_c17a(rj):
-    """exact shape: before the rejected event, an evict-to-end on file f at an offset beyond f's size, then a Reopen; the rejected event is a
-    read of f (its result, or a source / media read made for f)"""
+    """exact shape: before the rejected event, an evict-to-end on file f at an offset beyond f's size (a later store of f - new pool instance,
+    or the same pool after the idle store expired - then believes the extended size); the rejected event is a read of f (its result, or a
+    source / media read made for f)"""
     ex, at = rj['exec'], rj['at']
     ev = ex[at - 1]
     sizes = ex[0].get('sizes', [])
@@ -137,13 +132,7 @@ def signature_c17a(rj):
         f = inv[-1]['f'] if inv else None
     if ev['e'] not in ('ReadResp', 'SrcRead', 'MediaRead') or f is None or f >= len(sizes):
         return False
-    punched = None
-    for i, r in enumerate(ex[:at - 1]):
-        if r['e'] == 'PunchInv' and r['f'] == f and r['len'] == -1 and r['off'] > sizes[f]:
-            punched = i
-        if r['e'] == 'Reopen' and punched is not None and i > punched:
-            return True
-    return False
+    return any(r['e'] == 'PunchInv' and r['f'] == f and r['len'] == -1 and r['off'] > sizes[f] for r in ex[:at - 1])
 
 
 def classify(ctx, rj):
